@@ -31,7 +31,7 @@ def init : St := {}
 def getI (st : St) (two : Bool) : Inst :=
   if two then
     -- the second instance shares the node, the transaction table and the consensus parameters
-    { st.b with led := { st.b.led with node := st.a.led.node, txs := st.a.led.txs, p := st.a.led.p } }
+    { st.b with led := { st.b.led with node := st.a.led.node, txs := st.a.led.txs, shape := st.a.led.shape, p := st.a.led.p } }
   else st.a
 
 def setI (st : St) (two : Bool) (i : Inst) : St := if two then { st with b := i } else { st with a := i }
